@@ -162,11 +162,47 @@ func c01HookOrder(c *Ctx) {
 			cell = al
 		}
 	}
-	if cell == nil {
+	var stores []*ssa.Store
+	if cell != nil {
+		stores, _ = c.xb.storesTo(cell, map[ssa.Value]bool{})
+	} else if o := strip(order); o != nil && o.Op == "field" {
+		// the list is a field of a per-call object made in this function (the read opener is then a method of it):
+		// its append sites are the stores to that field anywhere in the package
+		base := strip(o.Args[0])
+		_, fresh := base.V.(*ssa.Alloc)
+		if base.Op == "complit" || fresh || base.Cell != nil {
+			var fld *types.Var
+			switch v := o.V.(type) {
+			case *ssa.FieldAddr:
+				fld = deref(v.X.Type()).Underlying().(*types.Struct).Field(v.Field)
+			case *ssa.UnOp:
+				if fa, ok := v.X.(*ssa.FieldAddr); ok {
+					fld = deref(fa.X.Type()).Underlying().(*types.Struct).Field(fa.Field)
+				}
+			case *ssa.Field:
+				fld = v.X.Type().Underlying().(*types.Struct).Field(v.Field)
+			}
+			if fld != nil {
+				for _, pf := range c.Funcs(ipnisyncPkg) {
+					instrsDeep(pf.SSA, func(_ *ssa.Function, in ssa.Instruction) {
+						if st, ok := in.(*ssa.Store); ok {
+							if fa, ok := st.Addr.(*ssa.FieldAddr); ok && deref(fa.X.Type()).Underlying().(*types.Struct).Field(fa.Field) == fld {
+								if _, init := fa.X.(*ssa.Alloc); init && st.Block() == fa.X.(*ssa.Alloc).Block() && isNilConst(st.Val) {
+									return
+								}
+								stores = append(stores, st)
+							}
+						}
+					})
+				}
+				cell = nil
+			}
+		}
+	}
+	if cell == nil && len(stores) == 0 {
 		c.Unk("C01.b-order-slice", c.short(walk.String())+" › order slice", walk.Pos(), "cannot identify the traversal-order slice returned on success")
 		return
 	}
-	stores, _ := c.xb.storesTo(cell, map[ssa.Value]bool{})
 	nApp := 0
 	for _, st := range stores {
 		v := c.E(st.Val)
